@@ -36,10 +36,32 @@ theorem noErr_append {α} {a b : List (Ev α)} : NoErr (a ++ b) ↔ NoErr a ∧ 
     · exact h1 e he
     · exact h2 e he
 
-/-- `Impl ne Q L`: `Q` emits, event by event, what the keyed reference lift of `L` emits, on every
-well-formed trace (`ne = false`) or on every well-formed trace without mux errors (`ne = true`) -/
-def Impl {α β} (ne : Bool) (Q : MuxOp α β) (L : LocalOp α β) : Prop :=
-  ∀ t, WF t → (ne = true → NoErr t) → Q.run t = (refLift L).run t
+def Ev.isFatal {α} : Ev α → Bool
+  | .fatal _ => true
+  | _ => false
+
+def NoFatal {α} (t : List (Ev α)) : Prop := ∀ e ∈ t, e.isFatal = false
+
+theorem noFatal_nil {α} : NoFatal ([] : List (Ev α)) := fun _ h => by simp at h
+
+theorem noFatal_cons {α} {e : Ev α} {t : List (Ev α)} : NoFatal (e :: t) ↔ e.isFatal = false ∧ NoFatal t := by
+  simp [NoFatal]
+
+theorem noFatal_append {α} {a b : List (Ev α)} : NoFatal (a ++ b) ↔ NoFatal a ∧ NoFatal b := by
+  simp only [NoFatal, List.mem_append]
+  constructor
+  · intro h; exact ⟨fun e he => h e (Or.inl he), fun e he => h e (Or.inr he)⟩
+  · rintro ⟨h1, h2⟩ e (he | he)
+    · exact h1 e he
+    · exact h2 e he
+
+/-- a clean trace carries neither `OnErrorMux` events nor `on_error` -/
+def CleanTr {α} (t : List (Ev α)) : Prop := NoErr t ∧ NoFatal t
+
+/-- `Impl c Q L`: `Q` emits, event by event, what the keyed reference lift of `L` emits, on every
+well-formed trace (`c = false`) or on every clean well-formed trace (`c = true`) -/
+def Impl {α β} (c : Bool) (Q : MuxOp α β) (L : LocalOp α β) : Prop :=
+  ∀ t, WF t → (c = true → CleanTr t) → Q.run t = (refLift L).run t
 
 theorem impl_of_implements {α β} {Q : MuxOp α β} {L : LocalOp α β} (h : Implements Q L) (ne : Bool) : Impl ne Q L :=
   fun t ht _ => h t ht
@@ -47,7 +69,7 @@ theorem impl_of_implements {α β} {Q : MuxOp α β} {L : LocalOp α β} (h : Im
 theorem implements_of_impl {α β} {Q : MuxOp α β} {L : LocalOp α β} (h : Impl false Q L) : Implements Q L :=
   fun t ht => h t ht (by simp)
 
-theorem impl_weaken {α β} {Q : MuxOp α β} {L : LocalOp α β} {ne : Bool} (h : Impl ne Q L) : Impl true Q L := by
+theorem impl_weaken {α β} {Q : MuxOp α β} {L : LocalOp α β} {c : Bool} (h : Impl c Q L) : Impl true Q L := by
   intro t ht hn
   exact h t ht (fun _ => hn rfl)
 
@@ -217,12 +239,12 @@ theorem nmOK_cls {nm : Naming} {k : Key} {j : Nat} (h : NmOK nm) : NmOK (updNm n
 
 /-- the inner events of a translated command group keep the inner protocol -/
 theorem tr_wf {α} {k : Key} {nm nm' : Naming} {cmds : List (Cmd α)} {evs : List (Ev α)}
-    (h : Tr k nm cmds evs nm') (hok : NmOK nm) : wfR (IL nm) evs (IL nm') ∧ NmOK nm' ∧ NoErr evs := by
+    (h : Tr k nm cmds evs nm') (hok : NmOK nm) : wfR (IL nm) evs (IL nm') ∧ NmOK nm' ∧ CleanTr evs := by
   induction h with
-  | nil nm => exact ⟨.nil _, hok, noErr_nil⟩
+  | nil nm => exact ⟨.nil _, hok, noErr_nil, noFatal_nil⟩
   | opn nm j a cs es nm' hn hf hc _ ih =>
     obtain ⟨ih1, ih2, ih3⟩ := ih (nmOK_opn hok hn hf hc)
-    refine ⟨.create _ _ _ _ ?_ ?_, ih2, noErr_cons.mpr ⟨rfl, ih3⟩⟩
+    refine ⟨.create _ _ _ _ ?_ ?_, ih2, noErr_cons.mpr ⟨rfl, ih3.1⟩, noFatal_cons.mpr ⟨rfl, ih3.2⟩⟩
     · rintro b ⟨k2, j2, hb⟩; exact hf k2 j2 b hb
     · have : (fun k' => k' = a ∨ IL nm k') = IL (updNm nm k j (some a)) := by
         funext b
@@ -243,10 +265,10 @@ theorem tr_wf {α} {k : Key} {nm nm' : Naming} {cmds : List (Cmd α)} {evs : Lis
       rw [this]; exact ih1
   | itm nm j a x cs es nm' hn _ ih =>
     obtain ⟨ih1, ih2, ih3⟩ := ih hok
-    exact ⟨.next _ _ _ _ _ ⟨k, j, hn⟩ ih1, ih2, noErr_cons.mpr ⟨rfl, ih3⟩⟩
+    exact ⟨.next _ _ _ _ _ ⟨k, j, hn⟩ ih1, ih2, noErr_cons.mpr ⟨rfl, ih3.1⟩, noFatal_cons.mpr ⟨rfl, ih3.2⟩⟩
   | cls nm j a cs es nm' hn _ ih =>
     obtain ⟨ih1, ih2, ih3⟩ := ih (nmOK_cls hok)
-    refine ⟨.done _ _ _ _ ⟨k, j, hn⟩ ?_, ih2, noErr_cons.mpr ⟨rfl, ih3⟩⟩
+    refine ⟨.done _ _ _ _ ⟨k, j, hn⟩ ?_, ih2, noErr_cons.mpr ⟨rfl, ih3.1⟩, noFatal_cons.mpr ⟨rfl, ih3.2⟩⟩
     have : (fun k' => k' ≠ a ∧ IL nm k') = IL (updNm nm k j none) := by
       funext b
       apply propext
@@ -439,13 +461,14 @@ theorem wrap_sim {α β} {sp : Splitter α} {ls : LSplit α} (sim : SplitSim sp 
       sim.Inv live s (tauOf ws) nm → WRel live nm rs ws →
       (∃ P, wfR (IL nm) ((spRun sp s t).map (·.1)).flatten P) ∧
       NoErr ((spRun sp s t).map (·.1)).flatten ∧
+      (NoFatal t → NoFatal ((spRun sp s t).map (·.1)).flatten) ∧
       glue (runGroups (refStep L) rs ((spRun sp s t).map (·.1))) ((spRun sp s t).map (·.2)) =
         runSteps (refStep (localWrap ls L)) ws t := by
   intro t
   induction t with
   | nil =>
     intro live s nm rs ws _ _ _ _ _ _
-    exact ⟨⟨_, .nil _⟩, noErr_nil, rfl⟩
+    exact ⟨⟨_, .nil _⟩, noErr_nil, fun _ => noFatal_nil, rfl⟩
   | cons e t ih =>
     intro live s nm rs ws hwf hne hd hok hinv hrel
     obtain ⟨hne1, hne2⟩ := noErr_cons.mp hne
@@ -455,12 +478,13 @@ theorem wrap_sim {α β} {sp : Splitter α} {ls : LSplit α} (sim : SplitSim sp 
     | fatal x =>
       simp only [wfStep] at hwf
       have hst := sim.fatal s x
-      obtain ⟨⟨P, h1⟩, h2, h3⟩ := ih live s nm rs ws hwf hne2 hd hok hinv hrel
+      obtain ⟨⟨P, h1⟩, h2, hf, h3⟩ := ih live s nm rs ws hwf hne2 hd hok hinv hrel
       simp only [spRun, hst, List.map_cons, List.flatten_cons, runGroups, runGroup, refStep, glue, runSteps,
         List.append_nil, List.map_nil]
-      refine ⟨⟨P, ?_⟩, ?_, ?_⟩
+      refine ⟨⟨P, ?_⟩, ?_, ?_, ?_⟩
       · exact .fatal _ _ _ _ h1
       · exact noErr_append.mpr ⟨noErr_cons.mpr ⟨rfl, noErr_nil⟩, h2⟩
+      · intro hnf; have := (noFatal_cons.mp hnf).1; simp [Ev.isFatal] at this
       · rw [h3]; rfl
     | create k =>
       cases hany : (live.any fun k' => k'.idx == k.idx) with
@@ -487,13 +511,13 @@ theorem wrap_sim {α β} {sp : Splitter α} {ls : LSplit α} (sim : SplitSim sp 
             have hn : k0 ∉ live := fun h => hk0 (List.mem_cons_of_mem _ h)
             simp [upd, h0, hrel.dead k0 hn]
         rw [← tauOf_upd ws k ls.init (fun _ => none)] at hinv'
-        obtain ⟨⟨P, h1⟩, h2, h3⟩ := ih (k :: live) _ nm rs _ (by simpa using hwf) hne2
+        obtain ⟨⟨P, h1⟩, h2, hf, h3⟩ := ih (k :: live) _ nm rs _ (by simpa using hwf) hne2
           (idxDistinct_cons hd hany) hok hinv' hrel'
         have e1 : (sp.step s (.create k)).2.1 = [] := by rw [hst]
         have e2 : (sp.step s (.create k)).2.2 = [.create k] := by rw [hst]
         simp only [spRun, List.map_cons, List.flatten_cons, e1, e2, runGroups, runGroup, glue, runSteps,
           List.nil_append, refStep]
-        refine ⟨⟨P, h1⟩, h2, ?_⟩
+        refine ⟨⟨P, h1⟩, h2, fun hnf => hf (noFatal_cons.mp hnf).2, ?_⟩
         rw [h3]; rfl
     | next k x =>
       by_cases hk : k ∈ live
@@ -527,10 +551,11 @@ theorem wrap_sim {α β} {sp : Splitter α} {ls : LSplit α} (sim : SplitSim sp 
             have h0 : k0 ≠ k := fun h => hk0 (h ▸ hk)
             simp [upd, h0, hrel.dead k0 hk0]
         rw [← tauOf_upd ws k _ (runGroup (cmdStep L) inner (ls.next t0 x).2).1] at hinv'
-        obtain ⟨⟨P, h1⟩, h2, h3⟩ := ih live _ nm' _ _ hwf hne2 hd hok' hinv' hrel'
+        obtain ⟨⟨P, h1⟩, h2, hf, h3⟩ := ih live _ nm' _ _ hwf hne2 hd hok' hinv' hrel'
         simp only [spRun, List.map_cons, List.flatten_cons, hout, runGroups, glue, runSteps, List.map_nil,
           List.append_nil, refStep, hws, localWrap]
-        refine ⟨⟨P, wfR_append w1 h1⟩, noErr_append.mpr ⟨w3, h2⟩, ?_⟩
+        refine ⟨⟨P, wfR_append w1 h1⟩, noErr_append.mpr ⟨w3.1, h2⟩,
+          fun hnf => noFatal_append.mpr ⟨w3.2, hf (noFatal_cons.mp hnf).2⟩, ?_⟩
         rw [h3, s1]; rfl
       · simp [wfStep, hk] at hwf
     | done k =>
@@ -566,23 +591,24 @@ theorem wrap_sim {α β} {sp : Splitter α} {ls : LSplit α} (sim : SplitSim sp 
             · have hn : k0 ∉ live := fun h => hk0 ((hmem_erase k0).mpr ⟨h0, h⟩)
               simp [upd, h0, hrel.dead k0 hn]
         rw [← tauOf_upd_none ws k] at hinv'
-        obtain ⟨⟨P, h1⟩, h2, h3⟩ := ih (live.erase k) _ nm' _ _ (by simpa using hwf) hne2 (hd.erase k) hok' hinv' hrel'
+        obtain ⟨⟨P, h1⟩, h2, hf, h3⟩ := ih (live.erase k) _ nm' _ _ (by simpa using hwf) hne2 (hd.erase k) hok' hinv' hrel'
         simp only [spRun, List.map_cons, List.flatten_cons, hout, runGroups, glue, runSteps, refStep, hws, localWrap]
-        refine ⟨⟨P, wfR_append w1 h1⟩, noErr_append.mpr ⟨w3, h2⟩, ?_⟩
+        refine ⟨⟨P, wfR_append w1 h1⟩, noErr_append.mpr ⟨w3.1, h2⟩,
+          fun hnf => noFatal_append.mpr ⟨w3.2, hf (noFatal_cons.mp hnf).2⟩, ?_⟩
         rw [h3, s1]; rfl
       · simp [wfStep, hk] at hwf
 
 /-- **the inductive step of `impl_eq_ref` for a splitter around an arbitrary inner operator** -/
 theorem wrap_impl {α β} {sp : Splitter α} {ls : LSplit α} (sim : SplitSim sp ls) (Q : MuxOp α β) (L : LocalOp α β)
     (b : Bool) (h : Impl b Q L) : Impl true (wrap sp Q) (localWrap ls L) := by
-  intro t ht hne
-  have hne' := hne rfl
+  intro t ht hcl
+  have hne' := (hcl rfl).1
   show runSteps (wrap sp Q).step (sp.init, Q.init) t = _
   rw [wrap_decompose]
   have hrel0 : WRel (σ := L.σ) (τ := ls.τ) [] (fun _ _ => none) (fun _ => none) (fun _ => none) :=
     ⟨fun _ hk => by simp at hk, fun _ _ => rfl⟩
   have hok0 : NmOK (fun _ _ => none) := ⟨fun _ _ _ h => by simp at h, fun _ _ _ _ _ _ h => by simp at h⟩
-  obtain ⟨⟨P, w1⟩, w2, w3⟩ := wrap_sim sim L t [] sp.init (fun _ _ => none) (fun _ => none) (fun _ => none)
+  obtain ⟨⟨P, w1⟩, w2, wf, w3⟩ := wrap_sim sim L t [] sp.init (fun _ _ => none) (fun _ => none) (fun _ => none)
     ht hne' List.Pairwise.nil hok0 (by
       have : tauOf (σ := L.σ) (τ := ls.τ) (fun _ => none) = fun _ => none := by funext k; rfl
       rw [this]; exact sim.init) hrel0
@@ -590,7 +616,7 @@ theorem wrap_impl {α β} {sp : Splitter α} {ls : LSplit α} (sim : SplitSim sp
     funext a; apply propext; simp [IL]
   rw [hIL] at w1
   have hwf : WF ((spRun sp sp.init t).map (·.1)).flatten := wfFrom_of_wfR _ [] P List.Pairwise.nil w1
-  have e := h _ hwf (fun _ => w2)
+  have e := h _ hwf (fun _ => ⟨w2, wf (hcl rfl).2⟩)
   rw [runGroups_congr Q.step (refStep L) _ Q.init (fun _ => none) e]
   exact w3
 
